@@ -83,13 +83,37 @@ theorem val_signum (a : NInt) : (signum a).val = Int.sign a.val := by
 theorem val_gcd (a b : NInt) : (gcd a b).val = (Int.gcd a.val b.val : Int) := rfl
 theorem val_lcm (a b : NInt) : (lcm a b).val = (Int.lcm a.val b.val : Int) := rfl
 
+theorem neg_one_pow (n : Nat) : (-1 : Int) ^ n = if n % 2 = 0 then 1 else -1 := by
+  induction n with
+  | zero => simp
+  | succ k ih =>
+    rw [Int.pow_succ, ih]
+    rcases Nat.mod_two_eq_zero_or_one k with h | h
+    · have : (k + 1) % 2 = 1 := by omega
+      simp [h, this]
+    · have : (k + 1) % 2 = 0 := by omega
+      simp [h, this]
+
+theorem ipow_eq (a : Int) (n : Nat) : ipow a n = a ^ n := by
+  unfold ipow
+  by_cases h0 : a = 0
+  · subst h0
+    by_cases hn : n = 0
+    · subst hn; simp
+    · simp [hn, Int.zero_pow hn]
+  · by_cases h1 : a = 1
+    · subst h1; simp [Int.one_pow]
+    · by_cases hm : a = -1
+      · subst hm; simp [neg_one_pow]
+      · simp [h0, h1, hm]
+
 theorem val_pow (a b : NInt) (hb : 0 ≤ b.val) :
     (powMaybeRecip a b).1 = false ∧ (powMaybeRecip a b).2.val = a.val ^ b.val.toNat := by
   unfold powMaybeRecip
   by_cases h0 : b.val = 0
   · simp [h0]
   · have : 0 < b.val := by omega
-    simp [h0, this]
+    simp [h0, this, ipow_eq]
 
 /-! ## 2. the representation invariant is preserved (so the theorems compose along any
 computation: every operand "however produced" is well-formed) -/
@@ -299,16 +323,16 @@ theorem binop_refines (op : String) (a b : NInt) (ha : a.WF) (hb : b.WF) :
   case h_8 =>
     unfold powMaybeRecip
     by_cases h0 : b.val = 0
-    · simp [h0, Out.map, IRes.abs]
+    · simp [h0, Out.map, IRes.abs, ipow_eq]
     · by_cases hp : 0 < b.val
       · have : 0 ≤ b.val := by omega
         simp [h0, hp, this, Out.map, IRes.abs]
       · have hn : ¬ 0 ≤ b.val := by omega
         have hpos : 0 < (-b.val).toNat := by omega
         by_cases hz : a.val = 0
-        · simp [h0, hp, hn, hz, Out.map, IRes.abs, Int.zero_pow (Nat.ne_of_gt hpos)]
+        · simp [h0, hp, hn, hz, Out.map, IRes.abs, ipow_eq, Int.zero_pow (Nat.ne_of_gt hpos)]
         · have : a.val ^ (-b.val).toNat ≠ 0 := Int.pow_ne_zero hz
-          simp [h0, hp, hn, hz, this, Out.map, IRes.abs]
+          simp [h0, hp, hn, hz, this, Out.map, IRes.abs, ipow_eq]
   case h_12 => by_cases h : inUsize b.val <;> simp [h, Out.map, IRes.abs, val_shl]
   case h_13 => by_cases h : inUsize b.val <;> simp [h, Out.map, IRes.abs, shr]
   case h_16 => simp [Out.map, IRes.abs, beq_decide a b ha hb, IntSpec.b2i]
